@@ -110,6 +110,33 @@ def _seq_byte(send_bytes):
     return body[:5].decode("latin1"), body[5]
 
 
+CYCLE = 200    # > 191 (protocol cycle) and > 3 * 64 (command cycle)
+
+
+def _tap(obj):
+    """record what the connection's counter hands out (through its public method, rebound on the instance): the wire byte
+    of a request must be one of the numbers of the right kind handed out while that request was built"""
+    handed = []
+    orig = obj.get_and_increment_sequence_counter
+
+    def tapped(command, *a, **k):
+        v = orig(command, *a, **k)
+        handed.append((bool(command), v))
+        return v
+    obj.get_and_increment_sequence_counter = tapped
+    return handed
+
+
+def _seq_row(send_bytes, handed):
+    """(verb, sequence byte, numbers of that verb's kind handed out for this request, content length); clears `handed`"""
+    verb, seq = _seq_byte(send_bytes)
+    i = send_bytes.find(b"<DATAS>")
+    j = send_bytes.find(b"</DATAS>")
+    want = sorted({v for (c, v) in handed if c == (verb == "SPACK")})
+    del handed[:]
+    return verb, seq, want, j - i - 7
+
+
 class _Desc:
     destination = ("10.0.0.1", 10022)
     identifier = b"SPA01:02:03:04:05:06"
@@ -139,30 +166,33 @@ def wire_threaded():
         channel = signal_strength = 1
 
     sender = ("10.0.0.1", 10022, _Desc.identifier, _Desc.client_identifier)
+    # every site is driven through MORE than one whole cycle of its counter on one connection, so every value the counter
+    # can take is seen on the wire (an encoding that is right for small values only shows at the top of the range)
     for name, fn in (("spa.py:_on_set_value", lambda s: s._on_set_value(10, 1, 5)),
                      ("spa.py:press", lambda s: s.press(1)),
                      ("spa.py:_on_version_received", lambda s: s._on_version_received(H(), sender)),
                      ("spa.py:_on_channel_received", lambda s: s._on_channel_received(H(), sender))):
-        for warm in (0, 5):
-            spa = fresh()
-            for _ in range(warm):
-                spa.get_and_increment_sequence_counter(False)
-                spa.get_and_increment_sequence_counter(True)
+        spa = fresh()
+        ctr = _tap(spa)
+        for k in range(CYCLE):
             try:
                 fn(spa)
-                verb, seq = _seq_byte(last(spa))
+                out.append((name,) + _seq_row(last(spa), ctr))
             except Exception as e:  # noqa
-                verb, seq = f"raised {type(e).__name__}: {e}", None
-            out.append((name, verb, seq))
+                out.append((name, f"raised {type(e).__name__}: {e}", None, None, None))
+                break
     # the threaded partial-update ack
     from geckolib.driver.protocol.statusblock import GeckoPartialStatusBlockProtocolHandler
     spa = fresh()
+    ctr = _tap(spa)
     h = GeckoPartialStatusBlockProtocolHandler(spa)
-    try:
-        h.handle(b"STATP\x01\x00\x10\x01\x02", sender)
-        out.append(("statusblock.py:handle(STATP)",) + _seq_byte(last(spa)))
-    except Exception as e:  # noqa
-        out.append(("statusblock.py:handle(STATP)", f"raised {type(e).__name__}: {e}", None))
+    for k in range(CYCLE):
+        try:
+            h.handle(b"STATP\x01\x00\x10\x01\x02", sender)
+            out.append(("statusblock.py:handle(STATP)",) + _seq_row(last(spa), ctr))
+        except Exception as e:  # noqa
+            out.append(("statusblock.py:handle(STATP)", f"raised {type(e).__name__}: {e}", None, None, None))
+            break
     return out
 
 
@@ -187,33 +217,45 @@ def wire_async():
         class L:
             begin, end = 256, 512
         spa.log_class = L()
-        for name in ("_get_version_handler_func", "_get_channel_handler_func", "_get_config_file_handler_func",
-                     "_get_status_block_handler_func", "_get_watercare_handler_func", "_get_reminders_handler_func"):
-            try:
-                out.append(("async_spa.py:" + name,) + _seq_byte(getattr(spa, name)().send_bytes))
-            except Exception as e:  # noqa
-                out.append(("async_spa.py:" + name, f"raised {type(e).__name__}: {e}", None))
-        for name, mk in (("_on_async_set_value", lambda: spa._on_async_set_value(10, 2, 500)),
-                         ("async_press", lambda: spa.async_press(3)),
-                         ("async_set_watercare", lambda: spa.async_set_watercare(2))):
-            n0 = len(tr.sent)
-            t = asyncio.ensure_future(mk())
-            await asyncio.sleep(0.5)
-            t.cancel()
-            try:
-                await t
-            except BaseException:  # noqa
-                pass
-            if len(tr.sent) > n0:
-                out.append(("async_spa.py:" + name,) + _seq_byte(tr.sent[n0][1]))
-            else:
-                out.append(("async_spa.py:" + name, "nothing sent", None))
-        # the partial-update ack
+        ctr = _tap(proto)
+        for rnd in range(CYCLE // 6 + 1):
+            for name in ("_get_version_handler_func", "_get_channel_handler_func", "_get_config_file_handler_func",
+                         "_get_status_block_handler_func", "_get_watercare_handler_func", "_get_reminders_handler_func"):
+                try:
+                    out.append(("async_spa.py:" + name,) + _seq_row(getattr(spa, name)().send_bytes, ctr))
+                except Exception as e:  # noqa
+                    out.append(("async_spa.py:" + name, f"raised {type(e).__name__}: {e}", None, None, None))
+        # the partial-update ack draws from the same protocol counter
         from geckolib.driver.protocol.statusblock import GeckoAsyncPartialStatusBlockProtocolHandler
         h = GeckoAsyncPartialStatusBlockProtocolHandler(proto)
-        n0 = len(tr.sent)
-        await h.async_handle(b"STATP\x01\x00\x10\x01\x02", ("10.0.0.1", 10022, _Desc.identifier, b"IOSclient"))
-        out.append(("statusblock.py:async_handle(STATP)",) + (_seq_byte(tr.sent[n0][1]) if len(tr.sent) > n0 else ("nothing sent", None)))
+        for _ in range(CYCLE):
+            n0 = len(tr.sent)
+            try:
+                await h.async_handle(b"STATP\x01\x00\x10\x01\x02", ("10.0.0.1", 10022, _Desc.identifier, b"IOSclient"))
+            except Exception as e:  # noqa
+                out.append(("statusblock.py:async_handle(STATP)", f"raised {type(e).__name__}: {e}", None, None, None))
+                break
+            if len(tr.sent) > n0:
+                out.append(("statusblock.py:async_handle(STATP)",) + _seq_row(tr.sent[n0][1], ctr))
+            else:
+                out.append(("statusblock.py:async_handle(STATP)", "nothing sent", None, None, None))
+                break
+        for rnd in range(CYCLE // 3 + 1):
+            for name, mk in (("_on_async_set_value", lambda: spa._on_async_set_value(10, 2, 500)),
+                             ("async_press", lambda: spa.async_press(3)),
+                             ("async_set_watercare", lambda: spa.async_set_watercare(2))):
+                n0 = len(tr.sent)
+                t = asyncio.ensure_future(mk())
+                await asyncio.sleep(0.5)
+                t.cancel()
+                try:
+                    await t
+                except BaseException:  # noqa
+                    pass
+                if len(tr.sent) > n0:
+                    out.append(("async_spa.py:" + name,) + _seq_row(tr.sent[n0][1], ctr))
+                else:
+                    out.append(("async_spa.py:" + name, "nothing sent", None, None, None))
         return out
 
     return vloop.run_virtual(body)
@@ -229,15 +271,36 @@ def search_wire(ctx):
         rows += wire_async()
     except Exception as e:  # noqa
         rows.append(("wire_async", f"raised {type(e).__name__}: {e}", None))
-    ctx.cov["wire_sites_checked"] = len(rows)
-    for site, verb, seq in rows:
+    ctx.cov["wire_sites_checked"] = len({r[0] for r in rows})
+    ctx.cov["wire_datagrams_checked"] = len(rows)
+    ctx.cov["wire_sequence_values_seen"] = len({r[2] for r in rows if r[2] is not None})
+    ctx.cov["wire_sequence_values_protocol_range"] = len({r[2] for r in rows if r[2] is not None and r[2] < 192})
+    LEN = {}
+    seen_bad = set()
+    for row in rows:
+        site, verb, seq, want, ln = (tuple(row) + (None, None))[:5]
         ctx.count("evaluations")
         if seq is None:
-            ctx.violation(f"wire:{site}:no-datagram", {"kind": "wire", "site": site}, "a sequenced request datagram", verb)
+            if (site, "none") not in seen_bad:
+                seen_bad.add((site, "none"))
+                ctx.violation(f"wire:{site}:no-datagram", {"kind": "wire", "site": site}, "a sequenced request datagram", verb)
             continue
-        want = (192, 255) if verb == "SPACK" else (1, 191)
-        if not (want[0] <= seq <= want[1]):
-            ctx.violation(f"wire:{site}:{verb}", {"kind": "wire", "site": site}, f"sequence byte of {verb} in {want}", seq)
+        rng = (192, 255) if verb == "SPACK" else (1, 191)
+        if not (rng[0] <= seq <= rng[1]) and (site, "range") not in seen_bad:
+            seen_bad.add((site, "range"))
+            ctx.violation(f"wire:{site}:{verb}", {"kind": "wire", "site": site, "handed_out": want},
+                          f"sequence byte of {verb} in {rng}", seq)
+        elif want is not None and seq not in want and (site, "succ") not in seen_bad:
+            seen_bad.add((site, "succ"))
+            ctx.violation(f"wire-number:{site}:{verb}", {"kind": "wire", "site": site, "handed_out": want},
+                          f"the sequence byte is a number of the {'command' if verb == 'SPACK' else 'protocol'} counter handed out for this request: {want}", seq)
+        # one verb at one site has ONE content length whatever the sequence number is (the sequence is a single byte)
+        if ln is not None:
+            base = LEN.setdefault((site, verb), ln)
+            if ln != base and (site, "len") not in seen_bad:
+                seen_bad.add((site, "len"))
+                ctx.violation(f"wire-length:{site}:{verb}", {"kind": "wire", "site": site, "handed_out": want},
+                              f"content of {base} bytes as for the other sequence numbers", ln)
     ctx.sample({"wire": rows[:6]})
 
 
